@@ -23,30 +23,11 @@ Theorem wrap_lands_in_range : forall (w : Z) (signed : bool), (0 < w)%Z -> foral
 Proof. exact wrap_in_range. Qed.
 
 (* ---- soundness of the generic algorithm ---- *)
-(* the full statement: for every domain satisfying the one-sided laws, every width, representation, overflow mode,
-   guard, threshold, individually or collectively, the code AS IT IS keeps every required point *)
-Definition wrap_generic_sound_full : Prop :=
-  forall (PS : Type) (den : PS -> point -> Prop) ps_empty ps_is_empty ps_minimize ps_maximize ps_unconstrain ps_refine ps_shift ps_join
-         (w : Z) (signed : bool) (o : overflow) (cs_p : option (list con)) (thr : Z) (ind : bool) (vars : list nat),
-    laws PS den ps_is_empty ps_minimize ps_maximize ps_unconstrain ps_refine ps_shift ps_join ->
-    (0 < w)%Z -> NoDup vars ->
-    forall P q, required w signed vars o (guard cs_p) (den P) q ->
-      den (wrap_assign PS ps_empty ps_is_empty ps_minimize ps_maximize ps_unconstrain ps_refine ps_shift ps_join
-                       w signed o cs_p thr ind false vars P) q.
-
-(* proved part 1: the code as it is ([patched = false]), wrapping INDIVIDUALLY, every threshold, guard, mode *)
-Theorem wrap_generic_sound_partial :
-  forall (PS : Type) (den : PS -> point -> Prop) ps_empty ps_is_empty ps_minimize ps_maximize ps_unconstrain ps_refine ps_shift ps_join
-         (w : Z) (signed : bool) (o : overflow) (cs_p : option (list con)) (thr : Z) (vars : list nat),
-    laws PS den ps_is_empty ps_minimize ps_maximize ps_unconstrain ps_refine ps_shift ps_join ->
-    (0 < w)%Z -> NoDup vars ->
-    forall P q, required w signed vars o (guard cs_p) (den P) q ->
-      den (wrap_assign PS ps_empty ps_is_empty ps_minimize ps_maximize ps_unconstrain ps_refine ps_shift ps_join
-                       w signed o cs_p thr true false vars P) q.
-Proof. intros. apply wrap_generic_sound_lemma; auto. Qed.
-
-(* proved part 2: with the suggested fix ([patched = true]) also COLLECTIVELY (and individually) *)
-Theorem wrap_generic_sound_patched :
+(* [patched = true] is the code AS IT IS since the fix of the collective path (/repo commit 94f2bc7);
+   [patched = false] is the code before that commit (kept for the historical refutation below).
+   For every domain satisfying the one-sided laws, every width, representation, overflow mode, guard, threshold,
+   individually or collectively, wrap_assign keeps every required point. *)
+Theorem wrap_generic_sound :
   forall (PS : Type) (den : PS -> point -> Prop) ps_empty ps_is_empty ps_minimize ps_maximize ps_unconstrain ps_refine ps_shift ps_join
          (w : Z) (signed : bool) (o : overflow) (cs_p : option (list con)) (thr : Z) (ind : bool) (vars : list nat),
     laws PS den ps_is_empty ps_minimize ps_maximize ps_unconstrain ps_refine ps_shift ps_join ->
@@ -61,9 +42,9 @@ Theorem wrap_laws_satisfiable : forall n : nat,
   laws (rps) (rden) (r_is_empty n) (r_minimize n) (r_maximize n) r_unconstrain (r_refine n) (r_shift n) r_join.
 Proof. exact ref_laws. Qed.
 
-(* the full statement is FALSE for the code as it is: on a domain satisfying the laws, collective wrapping of
-   368 <= A <= 393, 891 <= B <= 930 (signed 8 bits, wraps, threshold 2) loses (384,891) |-> (-128,123) *)
-Theorem wrap_generic_sound_refuted :
+(* HISTORICAL (code before the fix, [patched = false]): on a domain satisfying the laws, collective wrapping of
+   368 <= A <= 393, 891 <= B <= 930 (signed 8 bits, wraps, threshold 2) lost (384,891) |-> (-128,123); the code as it is keeps it *)
+Theorem wrap_generic_pre_fix_refuted :
   exists (U : rps) (q : point),
     required 8 true [0; 1]%nat OWraps [] (rden U) q /\
     ~ rden (ref_wrap 2 8 true OWraps None 2 false false [0; 1]%nat U) q /\
@@ -72,14 +53,6 @@ Proof.
   exists [sys_of_cons defect_arg], defect_q. split; [exact defect_required|]. split.
   - intros H. apply rden_b_ok in H. rewrite defect_lost_as_is in H. discriminate.
   - apply rden_b_ok. exact defect_kept_patched.
-Qed.
-
-Theorem wrap_generic_sound_full_is_false : ~ wrap_generic_sound_full.
-Proof.
-  intros F. destruct wrap_generic_sound_refuted as [U [q [R [N _]]]]. apply N.
-  apply (F rps rden r_empty (r_is_empty 2) (r_minimize 2) (r_maximize 2) r_unconstrain (r_refine 2) (r_shift 2) r_join
-           8%Z true OWraps None 2%Z false [0; 1]%nat (ref_laws 2)); [reflexivity| |exact R].
-  constructor; [intros [X|[]]; discriminate|]. constructor; [intros []|constructor].
 Qed.
 
 (* ---- the verified tests used by the correspondence check ---- *)
